@@ -675,7 +675,19 @@ func PrintAllTypes() {
 func PrintTargetClassExtends() {
 	className := getTargetClass()
 
-	for classNode, parents := range base.ClassInheritanceMap {
+	// same-named classes of several namespaces: always answer for the same one
+	classNodes := make([]base.ClassNode, 0, len(base.ClassInheritanceMap))
+	for classNode := range base.ClassInheritanceMap {
+		classNodes = append(classNodes, classNode)
+	}
+
+	sort.Slice(classNodes, func(i, j int) bool {
+		return classNodes[i].Frame < classNodes[j].Frame
+	})
+
+	for _, classNode := range classNodes {
+		parents := base.ClassInheritanceMap[classNode]
+
 		if classNode.Class == className {
 			for _, parent := range parents {
 				switch parent.Class {
